@@ -107,6 +107,66 @@ def getHealthyOwner (score : κ → α → Nat) (p : Pool α) (k : κ) : α :=
     consulting the hash again.  So the pool that serves the request is the healthy owner seen by `p`. -/
 def servedBy (score : κ → α → Nat) (p : Pool α) (k : κ) : α := getHealthyOwner score p k
 
+/-! ### where a forwarded request goes: getPeerAddr -/
+
+/-- what `PeerPool.peers` holds after NewPeerPool.  `peers` aliases the caller's `cfg.Peers`: when the node's own id is
+    listed, `sort.Strings` and `slices.Compact` work IN PLACE on that very array (sorted, repetitions squeezed out, the
+    tail zeroed to ""); when it is not, `append(allPeers, NodeID)` moves to a new array (the harness passes slices without
+    spare capacity) and the configured order survives.  AddPeer / RemovePeer never touch it. -/
+def cfgPeersAfterNew (le : α → α → Bool) (empty : α) (self : α) (peers : List α) : List α :=
+  if self ∈ peers then
+    let c := compact (sortNodes le peers)
+    c ++ List.replicate (peers.length - c.length) empty
+  else peers
+
+/-- `PeerPool.peers` over time.  When the node listed itself, `peers` and `peerNodes` share ONE array: `peers` is the whole
+    array, `peerNodes` its front; AddPeer appends into the spare slot behind `peerNodes` (and sorts the front in place),
+    RemovePeer shifts the front left and leaves the old last element behind it — so `peers` = `peerNodes` ++ `tail`.  Once
+    AddPeer finds no spare slot it moves `peerNodes` to a new array and `peers` stays what the old one held (`frozen`). -/
+structure PeersField (α : Type) where
+  frozen : List α
+  tail : Option (List α)
+  deriving Repr
+
+def peersFieldNew (le : α → α → Bool) (empty : α) (self : α) (peers : List α) : PeersField α :=
+  if self ∈ peers then
+    { frozen := [], tail := some (List.replicate (peers.length - (compact (sortNodes le peers)).length) empty) }
+  else { frozen := peers, tail := none }
+
+def peersFieldAdd (pf : PeersField α) (nodesBefore : List α) (x : α) : PeersField α :=
+  if x ∈ nodesBefore then pf else
+  match pf.tail with
+  | some (_ :: t) => { pf with tail := some t }
+  | some [] => { frozen := nodesBefore, tail := none }
+  | none => pf
+
+def peersFieldRemove (pf : PeersField α) (nodesBefore : List α) (x : α) : PeersField α :=
+  if x ∈ nodesBefore then
+    match pf.tail, nodesBefore.getLast? with
+    | some t, some l => { pf with tail := some (l :: t) }
+    | _, _ => pf
+  else pf
+
+def peersOf (pf : PeersField α) (nodes : List α) : List α :=
+  match pf.tail with
+  | some t => nodes ++ t
+  | none => pf.frozen
+
+/-- getPeerAddr: the first configured entry that is the node id itself or the node id followed by ":8081" (`withPort`);
+    the node id when there is none -/
+def peerAddr (withPort : α → α) (cfgPeers : List α) (x : α) : α :=
+  match cfgPeers.find? (fun p => p == x || p == withPort x) with
+  | some p => p
+  | none => x
+
+/-- Allocate entering at pool `p`, with the transport: local when the healthy owner is the local node, otherwise the request
+    goes to whatever listens at `peerAddr` of the healthy owner (`resolve`: address ↦ node), and that node allocates from ITS
+    pool without consulting the hash again -/
+def servedVia (withPort : α → α) (resolve : α → Option α) (cfgPeers : List α) (score : κ → α → Nat) (p : Pool α) (k : κ) :
+    Option α :=
+  let h := getHealthyOwner score p k
+  if h = p.self then some h else resolve (peerAddr withPort cfgPeers h)
+
 /-! ## the monitor: abstract specification of C17 over the nodes' answers only
 
   It knows the operations that were issued (peer sets and health views are inputs) and judges answers:
